@@ -58,6 +58,9 @@ enum Dev {
     TakenCanonicalId,
     EmptyName,
     EmptySymbol,
+    /// a transfer of amount 0 without data that deviates in one respect: 0 = unknown token,
+    /// 1 = undecodable recipient, 2 = origin chain never trusted
+    ZeroAmountAnd(u8),
 }
 
 #[derive(Clone, Debug, Serialize, Deserialize)]
@@ -151,6 +154,7 @@ impl C04 {
             Dev::TruncateAtWord(_) | Dev::Trailing(_) | Dev::InnerTrailing(_) => 9,
             Dev::EmptyName => 10,
             Dev::EmptySymbol => 11,
+            Dev::ZeroAmountAnd(_) => 12,
         }
     }
 
@@ -205,6 +209,17 @@ impl C04 {
                 if let RMsg::Deploy { symbol, .. } = &mut msg { symbol.clear(); }
             }
             Dev::Amount(_) => { if !is_transfer { return None; } }
+            Dev::ZeroAmountAnd(z) => {
+                if !matches!(k, Kind::TransferNative | Kind::TransferCanonical) { return None; }
+                if let RMsg::Transfer { token_id, destination_address, amount, .. } = &mut msg {
+                    *amount = 0;
+                    match z {
+                        0 => *token_id = UNKNOWN,
+                        1 => *destination_address = vec![1, 2, 3, 4, 5],
+                        _ => origin = "polygon".into(),
+                    }
+                }
+            }
             _ => {}
         }
         }
@@ -280,6 +295,7 @@ impl C04 {
         for k in 0..24u8 { v.push(Dev::TruncateAtWord(k)); }
         for t in 0..3u8 { v.push(Dev::Trailing(t)); }
         for t in 0..3u8 { v.push(Dev::InnerTrailing(t)); }
+        for z in 0..3u8 { v.push(Dev::ZeroAmountAnd(z)); }
         v
     }
 }
@@ -364,6 +380,7 @@ impl Scenario for C04 {
                     Dev::TruncateAtWord(k) => *k == 3 || *k == 8,
                     Dev::Trailing(t) | Dev::InnerTrailing(t) => *t == 1,
                     Dev::GarbageAddress(g) => *g == 1,
+                    Dev::ZeroAmountAnd(z) => *z == 0,
                     _ => true,
                 })
                 .collect();
@@ -610,7 +627,7 @@ fn main() {
         let thorough = tier == "thorough";
         let mut o = Opts::new(tier, if thorough { 5 } else { 3 });
         o.min_depth = 2;
-        o.rule = "histories over {set/remove trusted chain X, Y} and deliveries; a delivery = one of 5 conforming messages (transfer to service-deployed token, to canonical token, with data to an app, remote deploy without/with minter) with ONE deviation from {none, never approved, approved with other payload / id / source address / destination contract, source chain not the hub, source address not the hub address, SendToHub wrapper, outer type 0/1/2/5/255, inner type 2/3/4/5/255, a dirty high byte in the outer / inner type word, origin never trusted, origin Y (trusted only after set), unknown token, 3 kinds of undecodable recipient/minter bytes, amount words 2^127, 2^128, 2^128+1000, 2^184+7, 2^192+5, 2^255, ff..ff, truncation at every 32-byte word, 3 kinds of trailing bytes on the payload and on the inner message, over-custody amount, taken token id, empty name, empty symbol}; delivering the same message twice arises as a path; thorough: every PAIR of deviations of different classes from the states reached by trust changes; payloads come from the independent ABI encoder".into();
+        o.rule = "histories over {set/remove trusted chain X, Y} and deliveries; a delivery = one of 5 conforming messages (transfer to service-deployed token, to canonical token, with data to an app, remote deploy without/with minter) with ONE deviation from {none, never approved, approved with other payload / id / source address / destination contract, source chain not the hub, source address not the hub address, SendToHub wrapper, outer type 0/1/2/5/255, inner type 2/3/4/5/255, a dirty high byte in the outer / inner type word, origin never trusted, origin Y (trusted only after set), unknown token, 3 kinds of undecodable recipient/minter bytes, a zero-amount transfer without data that names an unknown token / an undecodable recipient / a never-trusted origin, amount words 2^127, 2^128, 2^128+1000, 2^184+7, 2^192+5, 2^255, ff..ff, truncation at every 32-byte word, 3 kinds of trailing bytes on the payload and on the inner message, over-custody amount, taken token id, empty name, empty symbol}; delivering the same message twice arises as a path; thorough: every PAIR of deviations of different classes from the states reached by trust changes; payloads come from the independent ABI encoder".into();
         (C04 { thorough }, o)
     });
 }
